@@ -10,12 +10,12 @@ from ..gen import modules as gm
 
 LEAN_TARGETS = ['XdocModel.Proofs.C07', 'XdocModel.Pins.Collect']
 MANIFEST = {
-    'text': ("Full (after repair 09d4434). Proved for ALL mini-ASTs, docstrings, parser outputs and directory trees of the model: "
+    'text': ("Full (after repairs 09d4434, 29b8101, d1ce38f). Proved for ALL mini-ASTs, docstrings, parser outputs and directory trees of the model: "
              "`collect_eq_fold` (the visitor is the ordered-map fold of the declarative inventory, for every tree, also with repeated names), "
              "`collect_eq_inventory` (with pairwise distinct callnames the collected map IS the inventory of the property sentence: module "
              "docstring, every (async) function, class and method/static/class/property getter, decorated or not, reached through any nesting "
              "of non-definition compound statements, each once, in order, as func / Class / Class.method), `nothing_else` (+ four local forms: "
-             "function bodies, classes nested in classes, setters/deleters, main-guard code never matter), `identifiers_nodup`, "
+             "function bodies, classes nested in classes, setters/deleters, the block under a main guard in either spelling never matter; its else branch is collected), `identifiers_nodup`, "
              "`package_walk_spec` / `package_walk_inits` (a path is yielded iff it is a file with a valid extension, not __init__.py, and every "
              "directory from the package root down to it has an __init__.py entry), `google_offsets` (blocks tile the docstring lines, offsets "
              "strictly increase), `example_block_starts_at_tag`, `one_example_per_block_in_order`, `auto_is_google_or_freeform`, "
@@ -29,7 +29,7 @@ MANIFEST = {
     'technique': 'Lean 4 proof (structural induction over the statement tree / directory tree / line groups) + differential correspondence',
 }
 RULE = ('generated importable modules: random nesting of def / async def / class / decorators (functools.wraps, factories) / properties with '
-        'setter and deleter / staticmethod / classmethod / if / if-else / try / try-finally / with / for / while / main guard / nested defs '
+        'setter and deleter / staticmethod / classmethod / if / if-else / try / try-finally / with / for / while / main guard (both spellings, with and without else-branch definitions, anywhere at module level) / nested defs '
         'and classes / redefinitions / unexecuted branches; docstrings google, freeform, plain, one-line; raw / u / triple-single / '
         'triple-double quotes; opened on their own line or sharing it; 0..3 example blocks. model vs implementation on calldefs, on '
         'examples per (docstring, style), end to end on files; implementation vs inventory by construction. google splitter: fuzzed '
@@ -307,6 +307,7 @@ def correspondence(ctx, corr):
     merge(corr, par.pmap(_w_google, [(ctx.seed, s, 1000 if q else 12000) for s in range(16)]))
     merge(corr, par.pmap(_w_package, [(ctx.seed, s, 10 if q else 100) for s in range(16)]))
     merge(corr, par.pmap(_w_package_e2e, [(ctx.seed, s, 1 if q else 6) for s in range(8 if q else 16)]))
+    regression_cases(corr)
     # tag lines one by one
     lines = GOOGLE_POOL
     import re
@@ -341,24 +342,35 @@ def search(ctx, corr, broken):
     return hits[:5]
 
 
-WITNESS_A = "if '__main__' == __name__:\n    def hidden():\n        '''\n        >>> 1\n        '''\n"
-WITNESS_B = "if __name__ == '__main__':\n    pass\nelse:\n    def g():\n        '''\n        >>> 1\n        '''\n"
+# inputs of the repaired defects 29b8101 / d1ce38f (former K-C07-a, K-C07-b): regression cases, compared on every run
+REGRESSIONS = [
+    ("if '__main__' == __name__:\n    def hidden():\n        '''\n        >>> 1\n        '''\n", []),
+    ("if __name__ == '__main__':\n    pass\nelse:\n    def g():\n        '''\n        >>> 1\n        '''\n", [['g', True]]),
+    ('if "__main__" == __name__:\n    def hidden():\n        pass\nelse:\n    class K(object):\n        def m(self):\n            "doc"\n',
+     [['K', False], ['K.m', True]]),
+    ("if __name__ == '__main__':\n    def a(): pass\nelif True:\n    def b(): pass\nelse:\n    def c(): pass\n", [['b', False], ['c', False]]),
+]
+
+
+def regression_cases(corr):
+    srcs = [s for s, _ in REGRESSIONS]
+    model = cc.model_calldefs(srcs)
+    for (src, exp), a in zip(REGRESSIONS, model):
+        impl, _ = C.real_calldefs(src)
+        corr.count('regression')
+        if impl != a:
+            corr.disagree('calldefs', {'kind': 'module-inventory', 'source': src}, a, impl)
+        obs = cc.observe_inventory(src)
+        if obs != exp:
+            corr.expect_fail('inventory', {'kind': 'module-inventory', 'source': src, 'label': 'regression'}, exp, obs,
+                             'main guard: the guarded block must not be collected (either spelling), its else branch must be')
 
 
 def classify(ctx, hit):
-    inp = hit.get('input', {})
-    if inp.get('kind') == 'module-inventory' and inp.get('source') == WITNESS_A:
-        return 'K-C07-a'
-    if inp.get('kind') == 'module-inventory' and inp.get('source') == WITNESS_B:
-        return 'K-C07-b'
     return None
 
 
 def replay_finding(ctx, finding):
-    if finding['id'] == 'K-C07-a':
-        return cc.observe_inventory(WITNESS_A) == [['hidden', True]]
-    if finding['id'] == 'K-C07-b':
-        return cc.observe_inventory(WITNESS_B) == []
     return False
 
 
